@@ -103,6 +103,8 @@ struct Snap {
 	preemptions: u32,
 	outcome_hash: u64,
 	unfinished: Vec<String>,
+	table_empty: bool,
+	table: String,
 }
 
 fn h2(v: &impl Hash) -> (u64, u64) {
@@ -218,6 +220,8 @@ fn snapshot(g: &Inner, targets: &[Target<'_>], arena: &Arena, cfg: &Cfg) -> Snap
 		preemptions: g.preemptions,
 		outcome_hash: h2(&outcome).0,
 		unfinished,
+		table_empty: g.locks.iter().all(|l| l.is_free()),
+		table: g.table_string(),
 	}
 }
 
@@ -320,6 +324,12 @@ impl<'p> Search<'p> {
 				});
 			} else {
 				self.stats.terminal += 1;
+				if !snap.table_empty && g.leaked.is_empty() {
+					self.found.push(Found {
+						violation: Violation { prop: "C05", key: format!("locks-held-at-end|{}", self.prog.name), detail: format!("all threads finished and dropped their guards but the owner table is not empty: {}", g.table_string()) },
+						schedule: self.path.clone(),
+					});
+				}
 				if self.outcomes.insert(snap.outcome_hash) {
 					self.stats.distinct_outcomes += 1;
 				}
@@ -721,6 +731,9 @@ pub fn explore_bfs_par(prog: &Program, cfg: &Cfg, hook: Option<&StateHook>) -> O
 					found.push(Found { violation: Violation { prop: "C01", key: format!("deadlock|{}", prog.name), detail: format!("no thread is enabled but some are unfinished: {}", snap.unfinished.join("; ")) }, schedule: prefix.clone() });
 				} else {
 					stats.terminal += 1;
+					if !snap.table_empty && snap.all_finished && !cfg.no_deadlock_report {
+						found.push(Found { violation: Violation { prop: "C05", key: format!("locks-held-at-end|{}", prog.name), detail: format!("all threads finished but the owner table is not empty: {}", snap.table) }, schedule: prefix.clone() });
+					}
 					if outcomes.insert(snap.outcome_hash) {
 						stats.distinct_outcomes += 1;
 					}
